@@ -119,6 +119,9 @@ struct HCpca : Harness {
     for (Fit *f : {&A, &C, &B}) fill_outcome_from_sim(o, f->sr, plan_strategy);
     o.sched_sig = B.sr.sched_sig; o.nontrivial = B.sr.max_live >= 2;
     o.counters["nproc." + std::to_string(nproc)]++;
+    o.counters["scaling." + std::to_string(scaling)]++;
+    o.counters["blocks." + std::to_string(blocks.size())]++;
+    { bool eq = false; for (size_t b = 1; b < blocks.size(); b++) if (blocks[b][0].size() == blocks[b - 1][0].size()) eq = true; if (eq) o.counters["probe.adjacent_blocks_equal_width"]++; }
     Hasher h; h.u64(A.sr.hist_hash); h.u64(C.sr.hist_hash); h.u64(B.sr.hist_hash); hash_mat(h, B.out.super_scores); hash_vec(h, B.out.total_expvar);
     o.hash = h.h;
     if (A.rc == SIM_CEILING || B.rc == SIM_CEILING || C.rc == SIM_CEILING) { o.counters["skipped.step_ceiling"]++; return o; }
